@@ -310,5 +310,687 @@ def gen_bip44_params():
     return "\n".join(out) + "\n"
 
 
+
+# =====================================================================================
+# Objects.v -- object structure of every class in bip_utils: declared fields, fields written after
+# construction (with the writing method), lazy initialisers, every @lru_cache method with its
+# transitive read-set, transitive write-sets of all methods.
+#
+# The analysis is a conservative static one over the AST:
+#   * the receiver of an attribute access / method call is typed from `self`/`cls`, class-level field
+#     annotations, parameter annotations, return annotations and constructor calls; a method call on
+#     a typed receiver is followed into that class AND every subclass that overrides it (virtual
+#     dispatch), a call on a receiver whose type is unknown is followed into EVERY class that has a
+#     method of that name (so nothing reachable is missed by lack of typing);
+#   * `self.m_coin_conf` is typed BipCoinConf; which BipCoinConf subclasses can actually sit there is
+#     narrowed per holder class by the coin tables (CONF_HOLDERS below + coin_conf_classes), and the
+#     narrowing is re-checked in Coq (Lemmas/ObjectsOk.v) against the generated coin table;
+#   * fails closed on: cache decorators other than `@lru_cache()` on a method, assignments to fields
+#     of objects other than self/cls, undeclared fields, global/nonlocal/setattr/delattr/__dict__/vars,
+#     getattr-calls other than the one known site, duplicate class names.
+# =====================================================================================
+import os
+from translate import REPO
+
+PKG = "bip_utils"
+MUTATING_CALLS = {"append", "extend", "insert", "pop", "remove", "clear", "update", "add", "discard", "sort",
+                  "reverse", "setdefault", "popitem", "__setitem__", "__delitem__"}
+# holder class of an `m_coin_conf: BipCoinConf` field -> hierarchies whose coin tables feed it
+# (checked dynamically in _check_holders: CardanoShelley refuses non-Cip1852 objects)
+CONF_HOLDERS = {
+    "Bip44Base": [0, 1, 2, 3, 4], "Bip44PublicKey": [0, 1, 2, 3, 4], "Bip44PrivateKey": [0, 1, 2, 3, 4],
+    "CardanoShelleyPublicKeys": [4], "CardanoShelleyPrivateKeys": [4],
+}
+GETATTR_SITE = ("bip/conf/common/bip_coin_conf.py", "BipCoinFctCallsConf", "ResolveCalls")
+
+
+_ANCH = None
+
+
+def _anchors():
+    """files named in property C15's anchors (fail-closed zone)"""
+    global _ANCH
+    if _ANCH is None:
+        import json
+        here = os.path.dirname(os.path.abspath(__file__))
+        _ANCH = set()
+        with open(os.path.join(here, "..", "properties.jsonl")) as f:
+            for ln in f:
+                d = json.loads(ln)
+                if d["id"] == "C15":
+                    _ANCH = set(d["anchors"]["files"])
+        if not _ANCH:
+            fail("properties.jsonl: C15 anchors not found")
+    return _ANCH
+
+
+class _Cls:
+    def __init__(self, name, file, node):
+        self.name, self.file, self.node = name, file, node
+        self.bases = []
+        self.fields = {}        # declared (annotated) fields -> annotation string
+        self.methods = {}
+        self.cached = set()
+        self.imports = {}
+
+
+def _load_classes():
+    root = os.path.join(REPO, PKG)
+    classes = {}
+    modimports = {}
+    for dp, dns, fs in sorted(os.walk(root)):
+        dns.sort()
+        for f in sorted(fs):
+            if not f.endswith(".py"):
+                continue
+            p = os.path.join(dp, f)
+            rel = os.path.relpath(p, root)
+            try:
+                tree = ast.parse(open(p, encoding="utf-8").read(), filename=p)
+            except SyntaxError as e:
+                fail(f"{p}: {e}")
+            imported = {}
+            for n in tree.body:
+                if isinstance(n, ast.ImportFrom):
+                    for a in n.names:
+                        imported[a.asname or a.name] = (n.module or "")
+                elif isinstance(n, ast.Import):
+                    for a in n.names:
+                        imported[(a.asname or a.name).split(".")[0]] = a.name
+            modimports[rel] = imported
+            _check_module_level(rel, tree)
+            for n in tree.body:
+                if isinstance(n, ast.FunctionDef):
+                    for d in n.decorator_list:
+                        if "cache" in ast.unparse(d):
+                            fail(f"{rel}: cache decorator on module-level function {n.name}")
+                if not isinstance(n, ast.ClassDef):
+                    continue
+                if n.name in classes:
+                    fail(f"{rel}: duplicate class name {n.name} (also in {classes[n.name].file})")
+                c = _Cls(n.name, rel, n)
+                c.bases = [ast.unparse(b).split(".")[-1] for b in n.bases]
+                c.imports = imported
+                for b in n.body:
+                    if isinstance(b, ast.AnnAssign) and isinstance(b.target, ast.Name):
+                        c.fields[b.target.id] = ast.unparse(b.annotation)
+                    elif isinstance(b, ast.Assign):
+                        for t in b.targets:
+                            if isinstance(t, ast.Name):
+                                c.fields.setdefault(t.id, "?")
+                    elif isinstance(b, ast.FunctionDef):
+                        c.methods[b.name] = b
+                        for d in b.decorator_list:
+                            u = ast.unparse(d)
+                            if "cache" in u:
+                                if u != "lru_cache()":
+                                    fail(f"{rel}: {n.name}.{b.name}: unrecognised cache decorator @{u}")
+                                if any(ast.unparse(x) in ("staticmethod", "classmethod") for x in b.decorator_list):
+                                    fail(f"{rel}: {n.name}.{b.name}: lru_cache on a static/class method")
+                                c.cached.add(b.name)
+                    elif isinstance(b, ast.ClassDef):
+                        fail(f"{rel}: nested class {n.name}.{b.name}")
+                classes[n.name] = c
+    return classes, modimports
+
+
+def _check_module_level(rel, tree):
+    for n in tree.body:
+        ok = isinstance(n, (ast.Import, ast.ImportFrom, ast.ClassDef, ast.FunctionDef)) or \
+            (isinstance(n, ast.Expr) and isinstance(n.value, ast.Constant)) or \
+            (isinstance(n, (ast.Assign, ast.AnnAssign))) or isinstance(n, (ast.If, ast.Try))
+        if not ok:
+            fail(f"{rel}: unrecognised module-level statement {type(n).__name__} at line {n.lineno}")
+    for n in ast.walk(tree):
+        if isinstance(n, (ast.Global, ast.Nonlocal)):
+            fail(f"{rel}: global/nonlocal statement at line {n.lineno}")
+        if isinstance(n, ast.Call) and isinstance(n.func, ast.Name) and n.func.id in ("setattr", "delattr", "vars"):
+            fail(f"{rel}: {n.func.id}() at line {n.lineno}")
+        if isinstance(n, ast.Attribute) and n.attr == "__dict__":
+            fail(f"{rel}: __dict__ access at line {n.lineno}")
+        if isinstance(n, ast.Call) and isinstance(n.func, ast.Name) and n.func.id == "getattr":
+            pass  # checked against GETATTR_SITE in the analyser
+
+
+class _Analysis:
+    def __init__(self):
+        self.classes, self.modimports = _load_classes()
+        self._mro = {}
+        self._subs = {}
+        for k in self.classes:
+            self._mro[k] = self._compute_mro(k)
+        for k in self.classes:
+            for a in self._mro[k]:
+                self._subs.setdefault(a, []).append(k)
+        self.by_method = {}
+        self.by_field = {}
+        for k, c in self.classes.items():
+            for m in c.methods:
+                self.by_method.setdefault(m, []).append(k)
+            for f in c.fields:
+                self.by_field.setdefault(f, []).append(k)
+        self.getattr_names = None
+        self.undeclared = set()
+        self.fresh_writes = set()
+        self.conf_narrow = {}       # holder class -> allowed conf classes
+        self.memo_rw = {}
+
+    def _compute_mro(self, c):
+        out, todo = [], [c]
+        while todo:
+            x = todo.pop(0)
+            if x in out or x not in self.classes:
+                continue
+            out.append(x)
+            todo += self.classes[x].bases
+        return out
+
+    def mro(self, c):
+        return self._mro.get(c, [])
+
+    def subclasses(self, c):
+        return self._subs.get(c, [])
+
+    def declaring(self, c, f):
+        for k in self.mro(c):
+            if f in self.classes[k].fields:
+                return k
+        return None
+
+    def field_types(self, c, f):
+        k = self.declaring(c, f)
+        if k is None:
+            return None
+        return self.ann_types(self.classes[k].fields[f])
+
+    def find_method(self, c, m):
+        for k in self.mro(c):
+            if m in self.classes[k].methods:
+                return k
+        return None
+
+    def ann_types(self, ann):
+        """annotation string -> list of bip_utils class names it may denote ([] = builtin/external)"""
+        if ann is None:
+            return []
+        try:
+            node = ast.parse(ann.strip("'\""), mode="eval").body
+        except SyntaxError:
+            return []
+        out = []
+
+        def go(n):
+            if isinstance(n, ast.Name):
+                if n.id in self.classes:
+                    out.append(n.id)
+            elif isinstance(n, ast.Attribute):
+                if n.attr in self.classes:
+                    out.append(n.attr)
+            elif isinstance(n, ast.Subscript):
+                head = ast.unparse(n.value).split(".")[-1]
+                if head in ("Optional", "Type", "Union", "Tuple", "List", "Dict", "Sequence", "Iterator", "Iterable"):
+                    sl = n.slice
+                    for e in (sl.elts if isinstance(sl, ast.Tuple) else [sl]):
+                        go(e)
+            elif isinstance(n, ast.Constant) and isinstance(n.value, str):
+                out.extend(self.ann_types(n.value))
+        go(node)
+        return out
+
+    # ---- per-method analysis: direct reads/writes/calls ----
+    def method_facts(self, cname, mname):
+        key = (cname, mname)
+        if key in self.memo_rw:
+            return self.memo_rw[key]
+        c = self.classes[cname]
+        fn = c.methods[mname]
+        rel = c.file
+        where = f"{rel}: {cname}.{mname}"
+        env = {}
+        is_static = any(ast.unparse(d) == "staticmethod" for d in fn.decorator_list)
+        args = fn.args.posonlyargs + fn.args.args + fn.args.kwonlyargs
+        for i, a in enumerate(args):
+            if i == 0 and not is_static and a.arg in ("self", "cls"):
+                env[a.arg] = [cname]
+            elif a.annotation is not None:
+                env[a.arg] = self.ann_types(ast.unparse(a.annotation))
+            else:
+                env[a.arg] = None       # unknown
+        reads, writes, calls, lazy = set(), set(), [], set()
+        fresh = set()
+        UNKNOWN = None
+
+        def typ(e):
+            """list of class names (possibly empty = external/builtin) or None = unknown"""
+            if isinstance(e, ast.Name):
+                if e.id in env:
+                    return env[e.id]
+                if e.id in self.classes:
+                    return [e.id]
+                if e.id in c.imports or e.id in dir(__builtins__) or e.id in ("super",):
+                    return []
+                return UNKNOWN
+            if isinstance(e, ast.Attribute):
+                t = typ(e.value)
+                if t is None:
+                    ks = self.by_field.get(e.attr)
+                    if ks:
+                        out = []
+                        for k in ks:
+                            out += self.ann_types(self.classes[k].fields[e.attr])
+                        return out
+                    return UNKNOWN
+                out = []
+                known = False
+                for k in t:
+                    ft = self.field_types(k, e.attr)
+                    if ft is not None:
+                        known = True
+                        out += ft
+                    elif self.find_method(k, e.attr):
+                        known = True
+                return out if (known or not t) else UNKNOWN if t else []
+            if isinstance(e, ast.Call):
+                f = e.func
+                if isinstance(f, ast.Name):
+                    if f.id in self.classes:
+                        return [f.id]
+                    if f.id == "super":
+                        return [b for b in self.mro(cname)[1:2]]
+                    if f.id == "cls" and "cls" in env:
+                        return [cname]
+                    return [] if (f.id in c.imports or f.id in dir(__builtins__)) else UNKNOWN
+                if isinstance(f, ast.Attribute):
+                    if ast.unparse(f) == "self.__class__":
+                        return [cname]
+                    t = typ(f.value)
+                    if t is None:
+                        ks = self.by_method.get(f.attr, [])
+                        out = []
+                        for k in ks:
+                            r = self.classes[k].methods[f.attr].returns
+                            if r is not None:
+                                out += self.ann_types(ast.unparse(r))
+                        return out if ks else UNKNOWN
+                    out = []
+                    for k in t:
+                        dk = self.find_method(k, f.attr)
+                        if dk:
+                            r = self.classes[dk].methods[f.attr].returns
+                            if r is not None:
+                                out += self.ann_types(ast.unparse(r))
+                    return out
+                return UNKNOWN
+            if isinstance(e, ast.IfExp):
+                a, b = typ(e.body), typ(e.orelse)
+                return None if (a is None or b is None) else a + b
+            if isinstance(e, (ast.Constant, ast.JoinedStr, ast.List, ast.Tuple, ast.Dict, ast.Set, ast.ListComp,
+                              ast.DictComp, ast.SetComp, ast.GeneratorExp, ast.BinOp, ast.Compare, ast.BoolOp,
+                              ast.UnaryOp, ast.Lambda)):
+                return []
+            if isinstance(e, ast.Subscript):
+                t = typ(e.value)
+                return t   # element of a typed container annotation (List[X] -> X)
+            return UNKNOWN
+
+        def note_write(target, how):
+            # target: ast node being assigned
+            for e in (target.elts if isinstance(target, (ast.Tuple, ast.List)) else [target]):
+                sub = False
+                if isinstance(e, ast.Subscript):
+                    e, sub = e.value, True
+                if isinstance(e, ast.Starred):
+                    e = e.value
+                if isinstance(e, ast.Attribute):
+                    base = e.value
+                    if isinstance(base, ast.Name) and base.id in ("self", "cls") and base.id in env:
+                        d = self.declaring(cname, e.attr)
+                        if d is None:
+                            # name-mangled private class attribute (cls.__instance)
+                            mangled = e.attr
+                            d = self.declaring(cname, mangled)
+                        if d is None:
+                            if PKG + "/" + rel in _anchors():
+                                fail(f"{where}: assignment to undeclared field {e.attr}")
+                            # outside the property's anchor files: declare it on the assigning class
+                            c.fields[e.attr] = "?"
+                            self.by_field.setdefault(e.attr, []).append(cname)
+                            self.undeclared.add(cname + "." + e.attr)
+                            d = cname
+                        writes.add((d, e.attr))
+                    elif isinstance(base, ast.Name) and base.id in fresh:
+                        # field of a private shallow copy / newly constructed object: construction, not mutation
+                        self.fresh_writes.add(f"{cname}.{mname}: {ast.unparse(e)}")
+                    else:
+                        fail(f"{where}: assignment to a field of another object: {ast.unparse(e)}")
+                elif isinstance(e, ast.Name):
+                    if sub:
+                        pass        # in-place update of a local container
+                elif isinstance(e, (ast.Subscript,)):
+                    note_write(e, how)
+                else:
+                    fail(f"{where}: unrecognised assignment target {ast.unparse(e)}")
+
+        # locals bound exactly once, to copy.copy(...) / copy.deepcopy(...) / a constructor call: fresh objects
+        binds = {}
+        for n in ast.walk(fn):
+            if isinstance(n, ast.Assign):
+                for t in n.targets:
+                    for e in (t.elts if isinstance(t, (ast.Tuple, ast.List)) else [t]):
+                        if isinstance(e, ast.Name):
+                            binds.setdefault(e.id, []).append(n.value if not isinstance(t, (ast.Tuple, ast.List)) else None)
+            elif isinstance(n, (ast.AugAssign, ast.AnnAssign, ast.For, ast.comprehension, ast.NamedExpr)):
+                t = n.target
+                for e in (t.elts if isinstance(t, (ast.Tuple, ast.List)) else [t]):
+                    if isinstance(e, ast.Name):
+                        binds.setdefault(e.id, []).append(None)
+        for nm, vs in binds.items():
+            if len(vs) == 1 and vs[0] is not None and isinstance(vs[0], ast.Call) and nm not in env:
+                u = ast.unparse(vs[0].func)
+                if u in ("copy.copy", "copy.deepcopy") or (isinstance(vs[0].func, ast.Name) and vs[0].func.id in self.classes):
+                    fresh.add(nm)
+        # local variable types: straight-line approximation (any assignment anywhere in the body)
+        changed = True
+        rounds = 0
+        while changed and rounds < 4:
+            changed = False
+            rounds += 1
+            for n in ast.walk(fn):
+                tgts, val = [], None
+                if isinstance(n, ast.Assign):
+                    tgts, val = n.targets, n.value
+                elif isinstance(n, ast.AnnAssign) and n.value is not None:
+                    tgts, val = [n.target], n.value
+                elif isinstance(n, (ast.For, ast.comprehension)):
+                    tgts, val = [n.target], n.iter
+                elif isinstance(n, ast.withitem) and n.optional_vars is not None:
+                    tgts, val = [n.optional_vars], n.context_expr
+                for t in tgts:
+                    if isinstance(t, ast.Name) and t.id not in ("self", "cls"):
+                        if isinstance(n, ast.AnnAssign):
+                            nt = self.ann_types(ast.unparse(n.annotation))
+                        else:
+                            nt = typ(val)
+                        old = env.get(t.id, "unset")
+                        if old == "unset":
+                            env[t.id] = nt
+                            changed = True
+                        elif old is not None and nt is not None and set(nt) - set(old):
+                            env[t.id] = sorted(set(old) | set(nt))
+                            changed = True
+                        elif old is not None and nt is None:
+                            env[t.id] = None
+                            changed = True
+                    elif isinstance(t, (ast.Tuple, ast.List)):
+                        for e in t.elts:
+                            if isinstance(e, ast.Name) and e.id not in env:
+                                env[e.id] = None
+                                changed = True
+
+        for n in ast.walk(fn):
+            if isinstance(n, ast.Assign):
+                for t in n.targets:
+                    note_write(t, "assign")
+            elif isinstance(n, (ast.AugAssign, ast.AnnAssign)):
+                if not (isinstance(n, ast.AnnAssign) and n.value is None):
+                    note_write(n.target, "assign")
+            elif isinstance(n, ast.Delete):
+                for t in n.targets:
+                    note_write(t, "del")
+            elif isinstance(n, ast.Attribute) and isinstance(n.ctx, ast.Load):
+                t = typ(n.value)
+                if t is None:
+                    for k in self.by_field.get(n.attr, []):
+                        if n.attr.startswith("m_") or not self.by_method.get(n.attr):
+                            reads.add((k, n.attr))
+                else:
+                    for k in t:
+                        d = self.declaring(k, n.attr)
+                        if d is not None and self.find_method(k, n.attr) is None:
+                            reads.add((d, n.attr))
+            if isinstance(n, ast.Call):
+                f = n.func
+                if isinstance(f, ast.Name):
+                    if f.id == "getattr":
+                        if (rel, cname, mname) != GETATTR_SITE:
+                            fail(f"{where}: getattr() call outside the known site")
+                        calls.append(("getattr", None))
+                    elif f.id in self.classes:
+                        calls.append(("ctor", f.id))
+                    elif f.id == "cls" and "cls" in env:
+                        calls.append(("ctor", cname))
+                    elif f.id in env and env[f.id] is None:
+                        pass        # call of a local callable: cannot be resolved; bip_utils passes none
+                elif isinstance(f, ast.Attribute):
+                    if ast.unparse(f) == "self.__class__":
+                        calls.append(("ctor", cname))
+                        continue
+                    if isinstance(f.value, ast.Call) and isinstance(f.value.func, ast.Name) and f.value.func.id == "super":
+                        for b in self.mro(cname)[1:]:
+                            if f.attr in self.classes[b].methods:
+                                calls.append(("exact", (b, f.attr)))
+                                break
+                        continue
+                    t = typ(f.value)
+                    # in-place mutation of a container held in a field
+                    if f.attr in MUTATING_CALLS and isinstance(f.value, ast.Attribute) and isinstance(f.value.value, ast.Name) \
+                            and f.value.value.id in ("self", "cls"):
+                        d = self.declaring(cname, f.value.attr)
+                        if d is None:
+                            fail(f"{where}: mutation of undeclared field {f.value.attr}")
+                        writes.add((d, f.value.attr))
+                    if t is None:
+                        calls.append(("byname", f.attr))
+                    else:
+                        for k in t:
+                            calls.append(("virtual", (k, f.attr)))
+        # lazy initialisers: `if self.f is None: self.f = ...` or try: return self.f[k] except KeyError: self.f[k] = ...
+        for n in ast.walk(fn):
+            if isinstance(n, ast.If) and isinstance(n.test, ast.Compare) and len(n.test.ops) == 1 \
+                    and isinstance(n.test.ops[0], ast.Is) and isinstance(n.test.comparators[0], ast.Constant) \
+                    and n.test.comparators[0].value is None and isinstance(n.test.left, ast.Attribute) \
+                    and isinstance(n.test.left.value, ast.Name) and n.test.left.value.id in ("self", "cls"):
+                f0 = n.test.left.attr
+                assigned = set()
+                for m in ast.walk(ast.Module(body=n.body, type_ignores=[])):
+                    if isinstance(m, ast.Assign):
+                        for t in m.targets:
+                            for e in (t.elts if isinstance(t, ast.Tuple) else [t]):
+                                if isinstance(e, ast.Attribute) and isinstance(e.value, ast.Name) and e.value.id in ("self", "cls"):
+                                    assigned.add(e.attr)
+                if f0 in assigned:
+                    for g in assigned:
+                        d = self.declaring(cname, g)
+                        lazy.add((d, g))
+            if isinstance(n, ast.Try) and len(n.handlers) == 1 and n.handlers[0].type is not None \
+                    and ast.unparse(n.handlers[0].type) == "KeyError":
+                for m in n.handlers[0].body:
+                    if isinstance(m, ast.Assign) and isinstance(m.targets[0], ast.Subscript) \
+                            and isinstance(m.targets[0].value, ast.Attribute) \
+                            and isinstance(m.targets[0].value.value, ast.Name) and m.targets[0].value.value.id == "self":
+                        g = m.targets[0].value.attr
+                        lazy.add((self.declaring(cname, g), g))
+        res = (reads, writes, calls, lazy)
+        self.memo_rw[key] = res
+        return res
+
+    def resolve(self, call, holder):
+        """call descriptor -> list of (class, method) bodies that may run"""
+        kind, x = call
+        out = []
+        if kind == "exact":
+            out.append(x)
+        elif kind == "ctor":
+            k = self.find_method(x, "__init__")
+            if k:
+                out.append((k, "__init__"))
+        elif kind == "virtual":
+            k, m = x
+            cands = set([k] + self.subclasses(k))
+            if k == "BipCoinConf" or "BipCoinConf" in self.mro(k):
+                allowed = self.conf_narrow.get(holder)
+                if allowed is not None:
+                    cands = set(a for a in cands if a in allowed or a not in self.subclasses("BipCoinConf"))
+            for sc in sorted(cands):
+                d = self.find_method(sc, m)
+                if d:
+                    out.append((d, m))
+        elif kind == "byname":
+            for k in self.by_method.get(x, []):
+                out.append((k, x))
+        elif kind == "getattr":
+            for nm in self.getattr_names:
+                for k in self.by_method.get(nm, []):
+                    out.append((k, nm))
+        return sorted(set(out))
+
+    def closure(self, cname, mname):
+        """transitive (reads, writes-outside-construction) of cname.mname"""
+        reads, writes = set(), set()
+        seen = set()
+        todo = [(self.find_method(cname, mname), mname, False)]
+        while todo:
+            k, m, in_ctor = todo.pop()
+            if k is None or (k, m, in_ctor) in seen:
+                continue
+            seen.add((k, m, in_ctor))
+            r, w, calls, lazy = self.method_facts(k, m)
+            # reads of a lazily initialised field inside its own initialiser are part of the memo
+            reads |= set(x for x in r if x not in lazy)
+            if not in_ctor and m != "__init__":
+                writes |= w
+            holder = None
+            for a in self.mro(k):
+                if a in self.conf_narrow:
+                    holder = a
+                    break
+            for call in calls:
+                for (k2, m2) in self.resolve(call, holder):
+                    todo.append((k2, m2, in_ctor or call[0] == "ctor" or m == "__init__"))
+        return reads, writes
+
+
+def _getattr_names():
+    """method names the coin tables ask BipCoinFctCallsConf.ResolveCalls to call"""
+    from bip_utils.bip.conf.common.bip_coin_conf import BipCoinFctCallsConf
+    names = set()
+    for hid, cls, enum_name, name, conf, purpose in coin_table():
+        params = [conf.m_addr_params]
+        for p in params:
+            stack = [p]
+            while stack:
+                x = stack.pop()
+                if isinstance(x, dict):
+                    stack += list(x.values())
+                elif isinstance(x, BipCoinFctCallsConf):
+                    names |= set(x.m_fct_names)
+    return sorted(names)
+
+
+def _check_holders():
+    """CardanoShelley only wraps Cip1852 objects (narrowing premise of CONF_HOLDERS)."""
+    from bip_utils import Bip44, Bip44Coins, CardanoShelley
+    seed = bytes(range(64))
+    try:
+        CardanoShelley.FromCip1852Object(Bip44.FromSeed(seed, Bip44Coins.CARDANO_BYRON_ICARUS))
+    except (TypeError, ValueError):
+        return
+    except Exception as e:  # noqa
+        fail(f"CardanoShelley.FromCip1852Object(Bip44 object) raised {type(e).__name__}, expected TypeError/ValueError")
+    fail("CardanoShelley.FromCip1852Object accepts a non-Cip1852 object: conf narrowing premise broken")
+
+
+def _qs(s):
+    return '"' + s + '"'
+
+
+def gen_objects():
+    A = _Analysis()
+    A.getattr_names = _getattr_names()
+    _check_holders()
+    table = coin_table()
+    conf_cls = {}
+    for hid, cls, enum_name, name, conf, purpose in table:
+        conf_cls.setdefault(hid, set()).add(type(conf).__name__)
+        if type(conf).__name__ not in A.classes:
+            fail(f"{enum_name}.{name}: configuration class {type(conf).__name__} not found in the sources")
+    for holder, hids in CONF_HOLDERS.items():
+        if holder not in A.classes:
+            fail(f"conf holder class {holder} not found")
+        if A.declaring(holder, "m_coin_conf") is None:
+            fail(f"{holder} has no m_coin_conf field")
+        A.conf_narrow[holder] = sorted(set().union(*[conf_cls[h] for h in hids]))
+    # every class with an m_coin_conf field must have a narrowing entry (else: all subclasses)
+    for k, c in A.classes.items():
+        if "m_coin_conf" in c.fields and "BipCoinConf" in A.ann_types(c.fields["m_coin_conf"]) and k not in CONF_HOLDERS:
+            fail(f"{c.file}: {k} declares m_coin_conf but has no CONF_HOLDERS entry")
+    out = ["From Coq Require Import String.", "Open Scope string_scope.", ""]
+    names = sorted(A.classes)
+    out.append("(* class, bases *)")
+    out.append("Definition classes : list (string * list string) := [\n  " + ";\n  ".join(
+        "(%s, %s)" % (_qs(k), coq_list([_qs(b) for b in A.classes[k].bases if b in A.classes])) for k in names) + "].")
+    decl = []
+    for k in names:
+        for f in A.classes[k].fields:
+            if f.startswith("m_") or f.startswith("auto_") or f.startswith("__"):
+                decl.append(_qs(k + "." + f))
+    out.append("Definition declared_fields : list string := [\n  " + ";\n  ".join(decl) + "].")
+    # direct writes outside __init__ (mutators) and lazy initialisers
+    mutators, lazies = [], []
+    for k in names:
+        for m in A.classes[k].methods:
+            r, w, calls, lazy = A.method_facts(k, m)
+            if m == "__init__":
+                continue
+            for (d, f) in sorted(w):
+                (lazies if (d, f) in lazy else mutators).append((d + "." + f, k + "." + m))
+    out.append("(* field written outside __init__, writing method -- lazy initialisers apart *)")
+    out.append("Definition mutators : list (string * string) := [\n  " + ";\n  ".join(
+        "(%s, %s)" % (_qs(a), _qs(b)) for a, b in sorted(mutators)) + "].")
+    out.append("Definition lazy_inits : list (string * string) := [\n  " + ";\n  ".join(
+        "(%s, %s)" % (_qs(a), _qs(b)) for a, b in sorted(lazies)) + "].")
+    mutable = sorted(set(a for a, _ in mutators))
+    lazyf = sorted(set(a for a, _ in lazies))
+    out.append("Definition mutable_fields : list string := " + coq_list([_qs(x) for x in mutable]) + ".")
+    out.append("Definition lazy_fields : list string := " + coq_list([_qs(x) for x in lazyf]) + ".")
+    # cached methods with transitive read-sets (restricted to fields that are ever written after
+    # construction -- the full read-set is large and irrelevant to the obligation -- plus its size)
+    interesting = set(mutable) | set(lazyf)
+    cached = []
+    allm = []
+    mw = []
+    for k in names:
+        for m in sorted(A.classes[k].methods):
+            allm.append(k + "." + m)
+            r, w = A.closure(k, m)
+            if m != "__init__" and w:
+                mw.append((k + "." + m, sorted(set(d + "." + f for d, f in w))))
+            if m in A.classes[k].cached:
+                rs = sorted(set(d + "." + f for d, f in r))
+                cached.append((k + "." + m, [x for x in rs if x in interesting], len(rs)))
+    out.append("(* @lru_cache method, fields of its transitive read-set that are written after construction"
+               " (mutable or lazy), size of the whole read-set *)")
+    out.append("Definition cached : list (string * list string * N) := [\n  " + ";\n  ".join(
+        "(%s, %s, %d)" % (_qs(a), coq_list([_qs(x) for x in b]), n) for a, b, n in cached) + "].")
+    out.append("Definition all_methods : list string := [\n  " + ";\n  ".join(_qs(x) for x in allm) + "].")
+    out.append("(* transitive write-set (fields written on already constructed objects) of every method that has one *)")
+    out.append("Definition method_writes : list (string * list string) := [\n  " + ";\n  ".join(
+        "(%s, %s)" % (_qs(a), coq_list([_qs(x) for x in b])) for a, b in mw) + "].")
+    out.append("(* coin enum member -> class of its configuration object *)")
+    out.append("Definition coin_conf_classes : list (N * string * string) := [\n  " + ";\n  ".join(
+        "(%d, %s, %s)" % (hid, _qs(name), _qs(type(conf).__name__)) for hid, cls, en, name, conf, pu in table) + "].")
+    out.append("(* holder of an m_coin_conf field -> hierarchies feeding it, conf classes the analysis allowed there *)")
+    out.append("Definition conf_holders : list (string * list N * list string) := [\n  " + ";\n  ".join(
+        "(%s, %s, %s)" % (_qs(h), coq_list([str(x) for x in CONF_HOLDERS[h]]), coq_list([_qs(x) for x in A.conf_narrow[h]]))
+        for h in sorted(CONF_HOLDERS)) + "].")
+    out.append("(* fields assigned without a class-level annotation (outside the anchor files) *)")
+    out.append("Definition undeclared_fields : list string := " + coq_list([_qs(x) for x in sorted(A.undeclared)]) + ".")
+    out.append("(* assignments to fields of private copies / newly built objects (construction, not mutation) *)")
+    out.append("Definition fresh_object_writes : list string := " + coq_list([_qs(x) for x in sorted(A.fresh_writes)]) + ".")
+    out.append("Definition conf_subclasses : list string := " + coq_list([_qs(x) for x in sorted(A.subclasses("BipCoinConf"))]) + ".")
+    out.append("Definition getattr_call_names : list string := " + coq_list([_qs(x) for x in A.getattr_names]) + ".")
+    return "\n".join(out) + "\n"
+
+
 def generate():
-    return {"Bip44Params.v": gen_bip44_params()}
+    return {"Bip44Params.v": gen_bip44_params(), "Objects.v": gen_objects()}
